@@ -8,7 +8,7 @@ given `ContentType` becomes output bytes (escaping of text + conversion to the d
 -/
 import LolHtml.Basic
 
-namespace LolHtml.Model
+namespace LolHtml.EditModel
 
 /-- mutations.rs:10 `ContentType`. -/
 inductive ContentType
@@ -121,4 +121,4 @@ def encUtf8 : Enc
   | .html, s => s
   | .text, s => escapeBodyText s
 
-end LolHtml.Model
+end LolHtml.EditModel
